@@ -4,7 +4,7 @@ cd "$(dirname "$0")/.."
 ID=$1; shift
 for d in "$@"; do
   git -C /repo diff --quiet || { echo "/repo not clean"; exit 3; }
-  git -C /repo apply "$(realpath $d)/patch.diff" || { echo "$d: patch failed"; continue; }
+  P="$(realpath $d)/patch.diff"; [ -f "$(realpath $d)/patch_on_fixed_tree.diff" ] && P="$(realpath $d)/patch_on_fixed_tree.diff"; git -C /repo apply "$P" || { echo "$d: patch failed"; continue; }
   s=$(date +%s); out=$(./check $ID --tier ${TIER:-quick} 2>&1); rc=$?; e=$(date +%s)
   git -C /repo checkout -- .
   echo "$ID on $(basename $d): rc=$rc $((e-s))s nviol=$(echo "$out" | grep -c '^VIOLATION') :: $(echo "$out" | grep -E "^$ID \[" | tail -1 | cut -c1-160)"
